@@ -1,12 +1,12 @@
 #!/bin/sh
 # tools/confirm_seed2.sh <srcdir with patch_[AB].diff demo_[AB].py> <Cnn> : confirms each change in a scratch worktree
 # (applies on its own, 176-test baseline unchanged, demo exits 0 without and 1 with it) and copies it to seeded/<Cnn>[CD]/
-SRC="$1"; P="$2"
+SRC="$1"; P="$2"; L1="${3:-C}"; L2="${4:-D}"
 WT=$(mktemp -d /tmp/confirm.XXXXXX)
 trap 'git -C /repo worktree remove --force "$WT" >/dev/null 2>&1; rm -rf "$WT"' EXIT INT TERM
 git -C /repo worktree add -q --detach "$WT" HEAD || exit 2
 for m in A B; do
-  new=$(echo $m | tr AB CD)
+  new=$(echo $m | tr AB "$L1$L2")
   patch="$SRC/patch_$m.diff"; demo="$SRC/demo_$m.py"
   [ -f "$patch" ] || { echo "$P$new: no patch"; continue; }
   git -C "$WT" reset -q --hard HEAD
